@@ -105,6 +105,14 @@ type VerifReliableInfo struct {
 	SenderClosed   bool
 	ReceiverClosed bool
 	DupAcks        int
+	// FirstUnacked is the number of the oldest frame kept for retransmission
+	// (0 if none), NextFrameNo the number the next new frame will get,
+	// PeerAcked the cumulative acknowledgement received from the peer and
+	// RecvNext the next frame number this end's receiver expects.
+	FirstUnacked uint32
+	NextFrameNo  uint32
+	PeerAcked    uint64
+	RecvNext     uint32
 }
 
 // VerifInfo returns a snapshot of the tube.
@@ -113,7 +121,15 @@ func (r *Reliable) VerifInfo() VerifReliableInfo {
 	defer r.l.Unlock()
 	r.sender.m.Lock()
 	defer r.sender.m.Unlock()
+	first := uint32(0)
+	if len(r.sender.frames) > 0 {
+		first = r.sender.frames[0].frameNo
+	}
 	return VerifReliableInfo{
+		FirstUnacked:   first,
+		NextFrameNo:    r.sender.frameNo,
+		PeerAcked:      r.sender.ackNo,
+		RecvNext:       r.recvWindow.getAck(),
 		State:          int32(r.tubeState),
 		UnackedFrames:  len(r.sender.frames),
 		RTO:            r.sender.RTO,
